@@ -341,3 +341,55 @@ func VerifC04Fold() {
 	verifAssert(verifEqStr(got, c04Dump(m123)), "C04/fold-equals-left-fold")
 	verifCover("C04/fold/end")
 }
+
+// VerifC04MergeAnchors: operands that contain YAML merge keys and aliases. Whatever the flags, evaluating the merge
+// (and throwing the result away) must leave the whole document — the anchored map included — reading as before,
+// and the result must share no node with it.
+//   base: &base {x: X, z: Z}     a: {<<: *base, y: Y}     b: {K1: V1, K2: V2}     c: {r: *base}
+// with K1, K2 drawn from the keys of base, of a, and a new one; either operand order; also the alias-valued `c`.
+func VerifC04MergeAnchors() {
+	x, z, y := verifStrN("x", 1, "09"), verifStrN("z", 1, "09"), verifStrN("y", 1, "09")
+	k1 := verifPick("k1", "x", "y", "z", "w", "r")
+	k2 := verifPick("k2", "x", "y", "z", "w", "r")
+	verifAssume(!verifEqStr(k1, k2))
+	v1, v2 := verifStrN("v1", 1, "09"), verifStrN("v2", 1, "09")
+	base := vMap(vStr("x"), vInt(x), vStr("z"), vInt(z))
+	base.Anchor = "base"
+	alias := func() *yaml.Node { return &yaml.Node{Kind: yaml.AliasNode, Value: "base", Alias: base} }
+	var bv2 *yaml.Node = vInt(v2)
+	if verifChoice("b_second_is_map", 2) == 1 {
+		bv2 = vMap(vStr(verifPick("b_inner_key", "x", "w")), vInt(v2))
+	}
+	doc := vDoc(vMap(
+		vStr("base"), base,
+		vStr("a"), vMap(vS("!!merge", "<<"), alias(), vStr("y"), vInt(y)),
+		vStr("b"), vMap(vStr(k1), vInt(v1), vStr(k2), bv2),
+		vStr("c"), vMap(vStr("r"), alias())))
+	flags := verifPick("flags", c04FlagSets...)
+	tok, err := multiplyWithPrefs(multiplyOpType)(lexer.Token{Value: "*" + flags})
+	if err != nil {
+		verifFail("C04/token-action-failed")
+	}
+	order := verifChoice("operands", 4)
+	text := []string{".a * .b", ".b * .a", ".c * .b", ".b * .c"}[order]
+	exp := vParse(text)
+	exp.Operation = tok.Operation
+	before := vDumpFull(doc)
+	res, _ := vEval(exp, doc)
+	label := "operands=" + text + " flags=" + verifConcreteStr(flags)
+	verifAssert(verifEqStr(vDumpFull(doc), before), "C04/document-changed-by-evaluating-a-merge "+label)
+	if res != nil {
+		shared := false
+		for _, r := range vNodes(res) {
+			for _, rn := range vAllNodes(r) {
+				for _, on := range vAllNodes(doc) {
+					if rn == on {
+						shared = true
+					}
+				}
+			}
+		}
+		verifAssert(!shared, "C04/result-aliases-operand "+label)
+	}
+	verifCover("C04/anchors/end")
+}
